@@ -1,5 +1,5 @@
 """Registry: for every property, its Lean modules, case generators and comparison rules."""
-from . import gen_asm
+from . import gen_asm, gen_vm
 
 KERNEL = "Lean 4.33 kernel; axioms allowed: propext, Classical.choice, Quot.sound (audited per theorem)"
 TIE = "hand-written Lean model tied to /repo by the differential harness (real crates in-process vs compiled Lean driver)"
@@ -44,4 +44,62 @@ PROPS["C14"] = dict(
     nontrivial=lambda body, out: out not in ("missing", "bad-line") and not out.startswith("ok [] "),
     trusted=[KERNEL, "gen/spec_from_yaml.py", TIE],
     assumptions=[],
+)
+
+
+def vm_project(out):
+    """property-level projection of a VM result: drop the error variant (keep position)"""
+    if out.startswith("err "):
+        return " ".join(out.split(" ")[:2])
+    return out
+
+
+def vm_status_project(out):
+    """C05's observable in the correspondence: did the run end in a value / typed error, or did it
+    panic / abort (the bounds themselves are checked after every step by the o_steps oracle)"""
+    t = out.split(" ")[0]
+    return t if t in ("panic", "abort", "missing", "bad-line", "fuel") else "total"
+
+
+def vm_nontrivial(body, out):
+    return out.startswith("ok ") or (out.startswith("err ") and not out.startswith("err 0 "))
+
+
+def vm_classify(body, out):
+    t = out.split(" ")
+    if t[0] == "err" and len(t) >= 3:
+        return "err:" + t[2]
+    return t[0]
+
+
+VM_TRUSTED = [KERNEL, TIE, "gen/spec_from_yaml.py, gen/consts_from_rust.py (limits)",
+              "modelled, not verified: rustc/std semantics of checked_*/Vec/slices, rayon's indexed collect, the cryptographic primitives (parameters of the model)"]
+
+PROPS["C05"] = dict(
+    modules=["Essential.Props.C05"],
+    gen=gen_vm.c05_cases,
+    project=vm_status_project, nontrivial=vm_nontrivial, classify=vm_classify,
+    release=True, abort_is_violation=True,
+    exhaustive="all single ops and (thorough) all op pairs over a 62-symbol alphabet (52 ops + 10 boundary pushes) from fixed states",
+    rule="cases: bounded-exhaustive short programs over boundary constants (incl. i64::MIN/MAX), states at/near every limit, "
+         "jump distances and gas at the integer extremes, long random programs, random bytecode; each case is executed by the "
+         "real Vm (whole-program) and single-stepped through sync::step_op with the four bounds checked after every op, in "
+         "debug (overflow checks on) and, thorough tier, release; non-trivial = distinct case that executes at least one op "
+         "successfully or fails after the first op",
+    trusted=VM_TRUSTED,
+    assumptions=["Access is constructed with an in-range solution index (documented expect)",
+                 "K1 (known finding): Compute breadth is unbounded; breadth above the model's maxBreadth is an `abort` in the model and such cases are not run in-process",
+                 "a program is a slice: fewer than isize::MAX ops"],
+)
+
+PROPS["C08"] = dict(
+    modules=["Essential.Props.C08"],
+    gen=gen_vm.c08_cases,
+    project=vm_project, nontrivial=vm_nontrivial, classify=vm_classify, model_is_spec=True,
+    exhaustive="17 binary ops x all 31x31 boundary operand pairs; index/length/address grids over the boundary pool for every Stack/Memory/ParentMemory op; 13x13 set pairs for EqSet",
+    rule="cases: every Stack/Pred/Alu/Memory/ParentMemory op on boundary operand tuples (i64 extremes, 0, limit, limit+1, negative "
+         "indices) with stacks/memories of size 0, small, limit-1, limit; random programs over the data ops; compared: final "
+         "stack, memory, pc, gas or error position+variant; non-trivial = distinct case that succeeds or fails after the first op",
+    trusted=VM_TRUSTED,
+    assumptions=["error *variants* are compared only as correspondence detail; the property-level comparison is success/failure, position and results"],
 )
